@@ -351,11 +351,21 @@ inductive Opt where
   | other
   deriving DecidableEq, Repr
 
+/-- the middleware an option configures, if any -/
+def Opt.mw? : Opt → Option Nat
+  | .withMiddleware m => some m
+  | .other => none
+
+/-- `opt(cfg)` for an option of the recognised shape: `WithMiddleware` appends -/
+def applyOpt (mws : List Nat) : Opt → List Nat
+  | .withMiddleware m => mws ++ [m]
+  | .other => mws
+
 /-- `cfg.Middlewares` after `ScopeMiddleware(provider, opts...)` has applied the options; `none` when
 the plumbing is not of the recognised shape -/
 def configured (sh : OptShape) (opts : List Opt) : Option (List Nat) :=
   if sh.defaultMiddlewaresNil && sh.optsAppliedInOrder && sh.withMiddlewareAppends then
-    some (opts.foldl (fun acc o => match o with | .withMiddleware m => acc ++ [m] | .other => acc) [])
+    some (opts.foldl applyOpt [])
   else none
 
 /-- a framework integration = trusted facts + the three extracted pieces -/
